@@ -150,6 +150,12 @@ func Schemata(p *core.Prog, r *core.Report) {
 				return
 			}
 			ts := c.Type().String()
+			// (the element type by the name the rules know it: a renamed type keeps its old name)
+			if sl, isSl := c.Type().Underlying().(*types.Slice); isSl {
+				if en := core.NamedOf(sl.Elem()); en != nil {
+					ts = "validate." + core.KnownTypeName(en)
+				}
+			}
 			if !strings.HasSuffix(ts, "validate.fieldSchemata") && !strings.HasSuffix(ts, "validate.itemSchemata") {
 				return
 			}
